@@ -505,3 +505,111 @@ Proof. intro H. apply HS in H as [_ H]. unfold both_in in *. now rewrite pruned_
 Theorem pruned_rvalid : rvalid pay K st g1.
 Proof. exact (RecompLoose.prune_rvalid pay K st G g1 (G_rvalid_loose K st kj S' G HK HG Hnd) Hp). Qed.
 End Pruned.
+
+(* ---- the link set of a graph with [lgraph_ok S] that contains both k-mers of every link of S is S ---- *)
+Section GLinks.
+Variable K : nat.
+Variable st : bool.
+Variable kj : dna -> dna -> bool.
+Variable SL : list dna.
+Variable G : list node_t.
+Hypothesis HK : 1 <= K.
+Hypothesis HG : lgraph_ok K st kj SL G.
+Hypothesis Hnd : NoDup (gk K st G).
+Local Notation Hwf := (lg_wf _ _ _ _ _ HG).
+
+Lemma lgraph_links_sound w : In w (graph_links K st G) -> In w SL.
+Proof.
+  unfold graph_links. intro H. apply in_flat_map in H as [n [Hn H]]. destruct (nwf K G Hwf n Hn) as [L W].
+  unfold node_links in H. apply in_app_or in H as [H|H]; [|apply in_app_or in H as [H|H]].
+  - apply in_map_iff in H as [v [<- Hv]]. apply kmers_in in Hv as [p [Hp ->]].
+    destruct (mergeable_inv st kj SL _ _ (inner_pair K st kj SL G HK HG n p Hn Hp)) as (b & Hb & Er & _ & Ey & _).
+    assert (Hin : In b (rlinks st SL (kmer_at K (nd_seq n) p))) by (rewrite Er; now left). apply in_rlinks in Hin as [_ Hin].
+    rewrite kmer_at_S_snoc by exact Hp. rewrite (kmer_at_next K _ p HK Hp) in Ey. cbn [extend] in Ey. unfold extend_right in Ey.
+    apply app_inj_tail in Ey as [_ ->]. exact Hin.
+  - apply in_map_iff in H as [b [<- Hb]]. apply e_get_has in Hb as [Hb Hh].
+    exact (end_fwd K st kj SL G HG n DLeft b Hn (in_bases4_lt b Hb) Hh).
+  - apply in_map_iff in H as [b [<- Hb]]. apply e_get_has in Hb as [Hb Hh].
+    exact (end_fwd K st kj SL G HG n DRight b Hn (in_bases4_lt b Hb) Hh).
+Qed.
+
+Hypothesis Hcl : forall w, In w SL -> both_in K st (fun k => In k (gk K st G)) w.
+Hypothesis HSwf : forall w, In w SL -> exists v, wf_dna v /\ length v = S K /\ w = cn st v.
+
+Lemma in_node_links_win (n : node_t) p : In n G -> p + S K <= length (nd_seq n) ->
+  In (cn st (kmer_at (S K) (nd_seq n) p)) (graph_links K st G).
+Proof.
+  intros Hn Hp. unfold graph_links. apply in_flat_map. exists n. split; [exact Hn|]. unfold node_links. apply in_or_app. left.
+  apply in_map. now apply in_kmers_at'.
+Qed.
+Lemma in_node_links_ext (n : node_t) s c : In n G -> (c < 4)%N -> e_has_ext (nd_exts n) (dirb s) c = true ->
+  In (cn st (lk (term_kmer K (nd_seq n) s) s c)) (graph_links K st G).
+Proof.
+  intros Hn Hc Hh. unfold graph_links. apply in_flat_map. exists n. split; [exact Hn|]. unfold node_links. apply in_or_app. right.
+  destruct s; cbn [dirb term_kmer lk] in *.
+  - apply in_or_app. left. apply in_map_iff. exists c. split; [reflexivity|]. apply e_get_has. split; [now apply in_bases4 | exact Hh].
+  - apply in_or_app. right. apply in_map_iff. exists c. split; [reflexivity|]. apply e_get_has. split; [now apply in_bases4 | exact Hh].
+Qed.
+
+Lemma lgraph_links_complete w : In w SL -> In w (graph_links K st G).
+Proof.
+  intro Hw. destruct (HSwf w Hw) as (v & Wv & Lv & ->). pose proof (Hcl _ Hw) as Hb.
+  apply (both_in_cn K st _ v Wv Lv) in Hb as [Hb1 _].
+  assert (Lx0 : length (firstn K v) = K) by (rewrite firstn_length; lia).
+  assert (Wx0 : wf_dna (firstn K v)) by (now apply wf_firstn).
+  set (x0 := firstn K v) in *. set (c := last v 0%N).
+  assert (Ev : v = lk x0 DRight c).
+  { cbn [lk]. unfold x0, c. rewrite <- (firstn_skipn K v) at 1. f_equal.
+    assert (Ls : length (skipn K v) = 1) by (rewrite skipn_length; lia).
+    destruct (skipn K v) as [|z [|? ?]] eqn:E; try discriminate. f_equal.
+    rewrite <- (firstn_skipn K v), E. now rewrite last_last. }
+  assert (Hc : (c < 4)%N).
+  { unfold c. apply wf_last; [exact Wv|]. intro E. rewrite E in Lv. discriminate. }
+  assert (Nx0 : x0 <> []) by (intro E; rewrite E in Lx0; cbn in Lx0; lia).
+  apply (gk_occ K st G) in Hb1 as (y & m & p & Hy & Hp & Ex). pose proof (nth_in G y m Hy) as Hm.
+  destruct (win_ok K G HK Hwf m p Hm Hp) as (Lw & Ww & Nw). destruct (nwf K G Hwf m Hm) as [Lm Wm].
+  symmetry in Ex. apply cn_eq_cases in Ex; auto.
+  assert (Hcase : kmer_at K (nd_seq m) p = x0 \/ (st = false /\ kmer_at K (nd_seq m) p = rc x0 /\ x0 <> rc x0)).
+  { destruct Ex as [Ex|[Hs Ex]]; [now left|]. destruct (list_eq_dec N.eq_dec x0 (rc x0)) as [E|E]; [left; congruence | right; auto]. }
+  rewrite Ev in Hw |- *. destruct Hcase as [Ex'|(Hs & Ex' & Hne)].
+  - destruct (Nat.eq_dec (p + K) (length (nd_seq m))) as [El|El].
+    + assert (EX : term_kmer K (nd_seq m) DRight = x0) by (cbn [term_kmer]; unfold last_kmer; rewrite <- Ex'; f_equal; lia).
+      destruct (lg_ends _ _ _ _ _ HG m Hm DRight c Hc) as [H1 H2]. rewrite EX in H1, H2.
+      destruct (kpal st x0) eqn:P.
+      * destruct (proj2 (H2 eq_refl) Hw) as [Hh|Hh].
+        -- rewrite <- EX. now apply in_node_links_ext.
+        -- apply kpal_iff in P as [Hs P].
+           assert (Ln : length (nd_seq m) = K).
+           { apply (lg_pal _ _ _ _ _ HG m Hm x0); [rewrite <- EX; now apply term_in_kmers | apply kpal_iff; auto]. }
+           pose proof (in_node_links_ext m DLeft (comp c) Hm (comp_lt4 c) Hh) as H.
+           rewrite (term_kmer_single K _ DLeft Ln), <- (term_kmer_single K _ DRight Ln), EX in H.
+           assert (E2 : lk x0 DLeft (comp c) = rc (lk x0 DRight c)) by (rewrite rc_lk; cbn [dflip]; now rewrite <- P).
+           rewrite E2, cn_rc_ in H; auto. now apply lk_wf.
+      * rewrite <- EX. apply in_node_links_ext; auto. now apply (H1 eq_refl).
+    + assert (Hp' : p + S K <= length (nd_seq m)) by lia.
+      assert (Hin : In (cn st (lk (kmer_at K (nd_seq m) p) DRight c)) SL) by (rewrite Ex'; exact Hw).
+      pose proof (inner_right K st kj SL G HK HG m p c Hm Hp' Hc Hin) as E.
+      rewrite (kmer_at_next K _ p HK Hp') in E. cbn [extend] in E. unfold extend_right in E. apply app_inj_tail in E as [_ E].
+      pose proof (in_node_links_win m p Hm Hp') as H. rewrite kmer_at_S_snoc, Ex', <- E in H by exact Hp'. exact H.
+  - assert (Erc : rc (lk x0 DRight c) = lk (rc x0) DLeft (comp c)) by (now rewrite rc_lk).
+    assert (Hw' : In (cn st (lk (rc x0) DLeft (comp c))) SL) by (rewrite <- Erc, cn_rc_; auto; now apply lk_wf).
+    assert (Ecn : cn st (lk (rc x0) DLeft (comp c)) = cn st (lk x0 DRight c)) by (rewrite <- Erc; apply cn_rc_; auto; now apply lk_wf).
+    rewrite <- Ecn. destruct p as [|q].
+    + assert (EX : term_kmer K (nd_seq m) DLeft = rc x0) by exact Ex'.
+      destruct (lg_ends _ _ _ _ _ HG m Hm DLeft (comp c) (comp_lt4 c)) as [H1 _]. rewrite EX in H1.
+      assert (P : kpal st (rc x0) = false).
+      { destruct (kpal st (rc x0)) eqn:P; [|reflexivity]. apply kpal_iff in P as [_ P]. rewrite ListFacts.rc_involutive in P by exact Wx0.
+        symmetry in P. contradiction. }
+      rewrite <- EX. apply in_node_links_ext; auto using comp_lt4. now apply (H1 P).
+    + assert (Hq : q + S K <= length (nd_seq m)) by lia.
+      assert (Hin : In (cn st (lk (kmer_at K (nd_seq m) (S q)) DLeft (comp c))) SL) by (rewrite Ex'; exact Hw').
+      pose proof (inner_left K st kj SL G HK HG m q (comp c) Hm Hq (comp_lt4 c) Hin) as E. rewrite Ex' in E.
+      pose proof (in_node_links_win m q Hm Hq) as H. rewrite kmer_at_S_cons, Ex' in H by exact Hq.
+      assert (Eh : nth q (nd_seq m) 0%N = comp c).
+      { rewrite <- (kmer_at_hd K (nd_seq m) q HK ltac:(lia)), <- E. reflexivity. }
+      rewrite Eh in H. exact H.
+Qed.
+
+Theorem lgraph_links_iff w : In w (graph_links K st G) <-> In w SL.
+Proof. split; [apply lgraph_links_sound | apply lgraph_links_complete]. Qed.
+End GLinks.
